@@ -298,6 +298,107 @@ def header_line_split(p: Program, rep=None):
     return out
 
 
+def header_blank_lines_skipped(p: Program, rep=None):
+    """A header block can start with an empty line: when a chunk ends between the CR and the LF that close a delimiter line, the
+    delimiter patterns take the lone CR as the line break and the LF becomes a leading empty line of the next header block. The
+    header loop therefore skips empty lines; a loop that turns EVERY line into a header gives that part a spurious ('', '') header
+    for exactly that chunking."""
+    dec = _decoder(p)
+    ph = dec.methods["_parse_headers"]
+    out = []
+    loops = [n for n in ast.walk(ph.node) if isinstance(n, ast.For) and isinstance(n.target, ast.Name)
+             and any(isinstance(c, ast.Call) and isinstance(c.func, ast.Attribute) and c.func.attr in ("splitlines", "split") for c in ast.walk(n.iter))]
+    if not loops:
+        # the same thing written as a pipeline of comprehensions: some stage filters on its line variable
+        comps = [n for n in ast.walk(ph.node) if isinstance(n, (ast.ListComp, ast.GeneratorExp, ast.SetComp))]
+        over_lines = any(isinstance(c, ast.Call) and isinstance(c.func, ast.Attribute) and c.func.attr == "splitlines" for n in comps for g in n.generators for c in ast.walk(g.iter))
+        if comps and over_lines and any(g.ifs and any(isinstance(x, ast.Name) and isinstance(g.target, ast.Name) and x.id == g.target.id for t in g.ifs for x in ast.walk(t)) for n in comps for g in n.generators):
+            return [("ok", ph, None, "", "_parse_headers: the line pipeline filters on the line itself (empty lines skipped)", [])]
+        return [("undecided", ph, None, "", "_parse_headers: no loop over the lines of the header block found (idiom not recognised)", [])]
+    for lp in loops:
+        var = lp.target.id
+        names = {var}
+        # `line = line.strip()` style rebinding keeps the name; `stripped = line.strip()` adds one
+        for n in ast.walk(lp):
+            if isinstance(n, ast.Assign) and len(n.targets) == 1 and isinstance(n.targets[0], ast.Name) and any(isinstance(x, ast.Name) and x.id in names for x in ast.walk(n.value)) \
+                    and isinstance(n.value, ast.Call) and isinstance(n.value.func, ast.Attribute) and n.value.func.attr in ("strip", "rstrip", "lstrip"):
+                names.add(n.targets[0].id)
+        if any(isinstance(c, ast.Call) and isinstance(c.func, ast.Name) and c.func.id == "filter" for c in ast.walk(lp.iter)) or any(isinstance(c, (ast.GeneratorExp, ast.ListComp)) for c in ast.walk(lp.iter)):
+            out.append(("undecided", ph, lp, "", "_parse_headers: the lines are filtered before the loop; that empty lines are dropped is not read off the filter", []))
+            continue
+        adds = [n for n in ast.walk(lp) if (isinstance(n, ast.Call) and isinstance(n.func, ast.Attribute) and n.func.attr in ("append", "add", "insert", "extend")) or isinstance(n, ast.Yield)]
+        if not adds:
+            out.append(("undecided", ph, lp, "", "_parse_headers: the line loop collects headers in an idiom outside the table", []))
+            continue
+
+        def _tests_var(t: ast.AST) -> bool:
+            return any(isinstance(x, ast.Name) and x.id in names for x in ast.walk(t))
+
+        early = any(isinstance(st, ast.If) and _tests_var(st.test) and any(isinstance(x, ast.Continue) for x in ast.walk(st)) for st in lp.body)
+        for a in adds:
+            guarded = early
+            q = getattr(a, "_parent", None)
+            while q is not None and q is not lp:
+                if isinstance(q, ast.If) and _tests_var(q.test):
+                    guarded = True
+                if isinstance(q, ast.Try):
+                    guarded = True
+                q = getattr(q, "_parent", None)
+            if guarded:
+                out.append(("ok", ph, None, "", "_parse_headers: a line becomes a header only under a test of the line (empty lines skipped)", []))
+            else:
+                out.append(("violation", ph, a, "every line of the header block becomes a header",
+                            f"_parse_headers turns every line of the block into a header (`{' '.join(ast.unparse(a).split())[:60]}` under no test of the line): when a chunk ends between the CR "
+                            "and the LF that close a delimiter line the next header block starts with an empty line, and that part alone gets a spurious ('', '') header - the parsed "
+                            "headers depend on how the body was chunked", []))
+    return out
+
+
+def safe_decode_declared_first(p: Program, rep=None):
+    """Header lines and field text are decoded with the part's DECLARED charset; a fixed codec is the fallback after that one
+    failed (inside the handler), never a shortcut taken before it: a 7-bit but not ASCII-compatible charset (ISO-2022-JP, HZ,
+    UTF-7) has all-ASCII bytes that mean other text."""
+    try:
+        sd = p.module("baize.multipart").functions.get("safe_decode")
+    except Exception:
+        sd = None
+    if sd is None:
+        return [("undecided", _decoder(p).methods["_parse_headers"], None, "", "multipart.safe_decode vanished (text decoded elsewhere)", [])]
+    if rep is not None:
+        rep.analysed(sd.fq)
+    prm = sd.params[1] if len(sd.params) > 1 else None
+    out = []
+    declared = 0
+    for r in [n for n in walk_shallow(sd.node) if isinstance(n, ast.Return) and n.value is not None]:
+        v = r.value
+        if not (isinstance(v, ast.Call) and isinstance(v.func, ast.Attribute) and v.func.attr == "decode"):
+            out.append(("undecided", sd, r, "", f"safe_decode returns `{ast.unparse(v)[:50]}`, not a decode call", []))
+            continue
+        codec = v.args[0] if v.args else next((k.value for k in v.keywords if k.arg == "encoding"), None)
+        in_handler = False
+        q = getattr(r, "_parent", None)
+        while q is not None and q is not sd.node:
+            if isinstance(q, ast.ExceptHandler):
+                in_handler = True
+            q = getattr(q, "_parent", None)
+        if isinstance(codec, ast.Name) and codec.id == prm:
+            declared += 1
+        elif isinstance(codec, ast.Constant) and not in_handler:
+            out.append(("violation", sd, r, f"fixed codec {codec.value!r} outside the fallback handler",
+                        f"safe_decode returns `{ast.unparse(v)[:50]}` on a path that has not tried the declared charset: bytes that are all 7-bit mean other text under a 7-bit charset "
+                        "that is not ASCII-compatible (ISO-2022-JP, HZ, UTF-7) - field text and filenames come back as raw escape sequences", []))
+        elif codec is None and not in_handler:
+            out.append(("violation", sd, r, "default codec outside the fallback handler", f"safe_decode returns `{ast.unparse(v)[:50]}` (UTF-8 by default) without using the declared charset", []))
+        elif not isinstance(codec, ast.Constant):
+            out.append(("undecided", sd, r, "", f"safe_decode decodes with a computed codec `{ast.unparse(codec)[:40]}`", []))
+    if not out:
+        if declared:
+            out.append(("ok", sd, None, "", "safe_decode tries the declared charset first; the fixed codec is only the fallback inside the handler", []))
+        else:
+            out.append(("undecided", sd, None, "", "safe_decode: no return of <bytes>.decode(<declared charset>) found", []))
+    return out
+
+
 def file_field_decision(p: Program, rep=None):
     """A part is a file exactly when its Content-Disposition carries a filename parameter (an empty one included)."""
     from ..collect import callee_is, run_paths
